@@ -46,9 +46,10 @@ NsLabels(w, nsName) ==
 (* Universe of a world                                                     *)
 Ports(w)     == 1..w.M
 AllPoints(w) == Protos \X Ports(w)
-(* address classes 0..nAddr-1, plus class nAddr = "everything outside the  *)
-(* embedded block" when the world is embedded under a prefix (hasOut)      *)
-Addrs(w)     == IF w.hasOut THEN 0..w.nAddr ELSE 0..(w.nAddr - 1)
+(* address classes 0..nAddr-1; when the world is embedded under a prefix   *)
+(* (hasOut) two more classes: nAddr = everything below the embedded block, *)
+(* nAddr+1 = everything above it (matched only by the 0.0.0.0/0 block)     *)
+Addrs(w)     == IF w.hasOut THEN 0..(w.nAddr + 1) ELSE 0..(w.nAddr - 1)
 WIdx(w)      == DOMAIN w.workloads
 Peers(w)     == {<<"w", i>> : i \in WIdx(w)} \cup {<<"a", a>> : a \in Addrs(w)}
 IsW(p)       == p[1] = "w"
